@@ -220,6 +220,15 @@ def check_gate(chk, prog, env, rulename='C02.family-gate'):
                                                                               c['reached'], why)))
                     continue
             for r in c['refused']:
+                if entry == 'jwt_sign':
+                    # the signer reports refusal through its return value; its callers write the message (C14 checks the whole path)
+                    if r[2] == 0:
+                        bad += 1
+                        chk.add(Finding(rulename, 'libjwt/jwt.c', entry, 'refusal-returns-0',
+                                        'alg=%s kty=%s bits=%d: jwt_sign returns 0 without reaching the provider' % (
+                                            env.aname(c['alg']), env.kty_name[c['kty']], c['bits'])))
+                        break
+                    continue
                 if r[0] != 1 or r[1] != 'nonempty':
                     if allowed and entry == 'jwt_sign' and hs:
                         pass
